@@ -635,9 +635,28 @@ class MOperator:
 
 
 def _sym_isinstance(obj, cls):
-    if cls is float and isinstance(obj, SR):
+    # the names float / int are themselves rebound in the analysed module (see _sym_float, _sym_int)
+    def real(c):
+        return builtins.float if c is _sym_float else (builtins.int if c is _sym_int else c)
+
+    cls = tuple(real(c) for c in cls) if isinstance(cls, tuple) else real(cls)
+    floaty = cls is builtins.float or (isinstance(cls, tuple) and builtins.float in cls)
+    if floaty and isinstance(obj, SR):
         return True
     return builtins.isinstance(obj, cls)
+
+
+def _sym_float(x=0.0):
+    """float() that lets a symbolic real through unchanged (it already denotes a real number)."""
+    if isinstance(x, SR):
+        return x
+    return builtins.float(x)
+
+
+def _sym_int(x=0, *a):
+    if isinstance(x, ZInt):
+        return x
+    return builtins.int(x, *a)
 
 
 _MISSING = object()
@@ -677,6 +696,8 @@ class Binder:
         self._set(st, "Operator", MOperator)
         self._set(st, "os", MOs(), only_if_present=True)
         self._set(st, "isinstance", _sym_isinstance)
+        self._set(st, "float", _sym_float)
+        self._set(st, "int", _sym_int)
         if self.np is not None:
             self._set(st, "np", self.np)
         self._set(inv, "yaml", y)
